@@ -1689,36 +1689,30 @@ open Poetry Marker ParserTotal
 
 /-! # Part XIII — lark's error outside the input text -/
 
-/-! ## what is FALSE -/
+/-! ## the unrestricted statement (open), and the regressions of the two repaired counterexamples -/
 
-/-- the full statement: `invert` of a marker built from an accepted text never raises lark's error.  FALSE. -/
+/-- the full statement: `invert` of a marker built from an accepted text never raises lark's error.  Open since repo fix
+7b51c5a removed the two known counterexamples (values with a backslash / with both quote characters). -/
 def invert_no_syntax_full_statement : Prop :=
   ∀ (name cstr : String) (s : Single) (e : PyErr), mkSingle name cstr false = .ok s →
     Leaf.invert (.single s) = .error e → e ≠ .syntax
 
-/-- **Counterexample (real).** `parse_marker("os_name == 'a\\'").invert()` raises `UnexpectedCharacters`: the
-value `a\` is printed as `"a\"`. -/
-theorem invert_syntax_counterexample_backslash :
-    ∃ s, mkSingle "os_name" "==a\\" false = .ok s ∧ Leaf.invert (.single s) = .error .syntax :=
-  ⟨_, rfl, eq_error_of_isErrB _ _ (by decide +kernel)⟩
+/-- **Regression of repo fix 7b51c5a** (was a counterexample: `parse_marker("os_name == 'a\\'").invert()` raised
+`UnexpectedCharacters` because the value `a\` was printed as `"a\"`): the value is now written in single quotes and
+`invert` succeeds. -/
+theorem invert_backslash_regression :
+    ∃ s, mkSingle "os_name" "==a\\" false = .ok s ∧ (Leaf.invert (.single s)).toOption.isSome = true :=
+  ⟨_, rfl, by decide +kernel⟩
 
-/-- **Counterexample (real).** `parse_marker('os_name == "a\\"\'b"').invert()`: the value `a\"'b` holds both quote
-characters. -/
-theorem invert_syntax_counterexample_both_quotes :
-    ∃ s, mkSingle "os_name" "==a\\\"'b" false = .ok s ∧ Leaf.invert (.single s) = .error .syntax :=
-  ⟨_, rfl, eq_error_of_isErrB _ _ (by decide +kernel)⟩
+/-- **Regression, both quote characters** (`parse_marker('os_name == "a\\"\'b"')`): a value holding a single quote is
+written back in double quotes, where the grammar reads `\"` as an escaped quote. -/
+theorem invert_both_quotes_regression :
+    ∃ s, mkSingle "os_name" "==a\\\"'b" false = .ok s ∧ (Leaf.invert (.single s)).toOption.isSome = true :=
+  ⟨_, rfl, by decide +kernel⟩
 
-theorem invert_no_syntax_counterexample : ¬ invert_no_syntax_full_statement := by
-  intro h
-  obtain ⟨s, h1, h2⟩ := invert_syntax_counterexample_backslash
-  exact h _ _ s _ h1 h2 rfl
-
-/-- the same texts are accepted by the grammar, and what `str()` prints for them is not: -/
+/-- the same texts are accepted by the grammar, and so is what `str()` prints for them: -/
 example : parseText "os_name == 'a\\'" = .ok (.one (.item "os_name" "==" "a\\" false)) ∧
-    parseText (leafText "os_name" "==" "a\\" false) = .error .syntax := by
-  constructor <;> decide +kernel
-example : parseText "os_name == \"a\\\"'b\"" = .ok (.one (.item "os_name" "==" "a\\\"'b" false)) ∧
-    parseText (leafText "os_name" "==" "a\\\"'b" false) = .error .syntax := by
+    parseText (leafText "os_name" "==" "a\\" false) = .ok (.one (.item "os_name" "==" "a\\" false)) := by
   constructor <;> decide +kernel
 
 /-! ## what holds -/
